@@ -25,7 +25,7 @@ Partial correctness (termination is not part of the property).  Assumes Ord is a
 from .facts import callee_name, ds
 from .paths import enumerate_paths
 from .zones import DBM, ZoneAnalysis, USIZE_MAX, LEN_MAX
-from .selection import VState, tadd
+from .selection import VState, tadd, refuted
 
 AUX = ["X%d" % i for i in range(12)]
 Z0 = ("Z", 0)
@@ -51,6 +51,7 @@ class BState(VState):
         self.itm = {}        # IterMut local -> (base, lo, hi)
         self.clos = {}       # closure local -> (key, [abstract captured values])
         self.selem = {}      # &mut element local -> (base, pos)
+        self.lenof = {}      # integer local holding the length of a slice -> (lo, hi)
         self.naux = 0
         self.case_used = False
 
@@ -95,10 +96,15 @@ class BulkProof:
             elif "slice" in fl:
                 self.p_val = l
         self.notes = []
+        self.panic_obs = []
         self._closure_cache = {}
 
     def name(self, l):
         return "_%d" % l
+
+    def need(self, st, kind, ok, detail):
+        """a requirement for "no panic when the precondition holds" (C16, converse)"""
+        self.panic_obs.append((kind, bool(ok) or st.d.bottom, detail))
 
     # ---------------------------------------------------------------- terms
     def term(self, op):
@@ -253,8 +259,23 @@ class BulkProof:
             else:
                 st.jknown = False
 
+    def promoted_int(self, pb):
+        """value of a promoted `&<integer constant>`"""
+        vals = {}
+        ret = None
+        for bb in sorted(pb.live_blocks()):
+            for s_ in pb.blocks[bb]["stmts"]:
+                if s_["k"] != "assign" or s_["dst"]["p"]:
+                    continue
+                rv = s_["rv"]
+                if rv["k"] == "use" and rv["a"]["k"] == "const" and "int" in rv["a"]["c"]:
+                    vals[s_["dst"]["l"]] = rv["a"]["c"]["int"]
+                elif rv["k"] == "ref" and not rv["pl"]["p"] and s_["dst"]["l"] == 0:
+                    ret = rv["pl"]["l"]
+        return vals.get(ret)
+
     def forget_local(self, st, l):
-        for m in (st.sl, st.bconst, st.bs, st.bsbool, st.itm, st.clos, st.selem, st.val, st.elem, st.subview, st.refint, st.ordcmp,
+        for m in (st.lenof, st.sl, st.bconst, st.bs, st.bsbool, st.itm, st.clos, st.selem, st.val, st.elem, st.subview, st.refint, st.ordcmp,
                   st.discr_of, st.pending, st.bools, st.lin):
             m.pop(l, None)
         for k in [k for k in st.tup if k[0] == l]:
@@ -717,6 +738,7 @@ class BulkProof:
                 if il not in self.int_locals:
                     raise Fail("slice write at an unmodelled index")
                 pos = self.plus(st, lo, (self.name(il), 0))
+                self.need(st, "slice-index", st.lt(pos, hi), "write to a slice element at position %s needs it below %s" % (pos, hi))
                 st.d.add(pos[0], hi[0], hi[1] - pos[1] - 1)      # bounds-checked: panics otherwise
                 self.slice_write(st, base, pos, rv["a"])
                 return
@@ -801,6 +823,10 @@ class BulkProof:
                 if sl and sl[1][0] == "Z":
                     self.set_int(st, l, (sl[2][0], sl[2][1] - sl[1][1]))
                     return
+                if sl:
+                    self.havoc_int(st, l)
+                    st.lenof[l] = (sl[1], sl[2])
+                    return
             self.havoc_int(st, l)
             return
         self.forget_local(st, l)
@@ -810,6 +836,13 @@ class BulkProof:
             return
         if k == "binop" and rv["op"] in ("Lt", "Le", "Gt", "Ge", "Eq", "Ne"):
             a, c = self.term(rv["a"]), self.term(rv["b"])
+            la, lc = self.oplocal(rv["a"]), self.oplocal(rv["b"])
+            if a and c and lc in st.lenof and la not in st.lenof:
+                lo_, hi_ = st.lenof[lc]                  # idx REL len  ⇔  lo + idx REL hi
+                a, c = self.plus(st, lo_, a), hi_
+            elif a and c and la in st.lenof and lc not in st.lenof:
+                lo_, hi_ = st.lenof[la]
+                a, c = hi_, self.plus(st, lo_, c)
             if a and c:
                 st.bools[l] = (rv["op"], a, c)
             return
@@ -842,6 +875,10 @@ class BulkProof:
                 c = rv["a"]["c"]
                 if "bool" in c:
                     st.bconst[l] = int(c["bool"])
+                elif "promoted" in c and c["promoted"] < len(b.promoted):
+                    v = self.promoted_int(b.promoted[c["promoted"]])
+                    if v is not None:
+                        st.refint[l] = ("Z", v)
                 return
             pl = rv["pl"] if k == "ref" else rv["a"].get("pl")
             if pl is None:
@@ -1024,15 +1061,18 @@ class BulkProof:
             raise Fail("slice range bound not modelled")
         if adt == "std::ops::RangeFrom":
             a = self.plus(st, lo, fs[0])
+            self.need(st, "slice-range", st.le(a, hi), "`[%s..]` of a slice ending at %s needs start ≤ len" % (a, hi))
             st.d.add(a[0], hi[0], hi[1] - a[1])
             return (base, a, hi)
         if adt == "std::ops::RangeTo":
             c = self.plus(st, lo, fs[0])
+            self.need(st, "slice-range", st.le(c, hi), "`[..%s]` of a slice ending at %s needs end ≤ len" % (c, hi))
             st.d.add(c[0], hi[0], hi[1] - c[1])
             return (base, lo, c)
         if adt == "std::ops::Range":
             a = self.plus(st, lo, fs[0])
             c = self.plus(st, lo, fs[1])
+            self.need(st, "slice-range", st.le(a, c) and st.le(c, hi), "`[%s..%s]` of a slice ending at %s needs start ≤ end ≤ len" % (a, c, hi))
             st.d.add(a[0], c[0], c[1] - a[1])
             st.d.add(c[0], hi[0], hi[1] - c[1])
             return (base, a, c)
@@ -1062,6 +1102,7 @@ class BulkProof:
             pos = self.term(t["args"][1])
             if pos is None:
                 raise Fail("array index not modelled")
+            self.need(st, "index", st.lt(pos, ("N", 0)), "indexing the array at %s needs %s < len" % (b.where(bb, "term"), pos))
             st.d.add(pos[0], "N", -1 - pos[1])
             st.elem[dl] = pos
             return
@@ -1075,6 +1116,9 @@ class BulkProof:
         if cb is not None and cb.key == self.partition_key and self.is_arr(args[0]):
             if not int_dst:
                 raise Fail("partition result not kept in an integer local")
+            pv_t = self.term(t["args"][1]) if len(t["args"]) > 1 else None
+            self.need(st, "pivot-in-range", pv_t is not None and st.lt(pv_t, ("N", 0)),
+                      "partition_mut at %s needs pivot_index < len (R18 proves it panic-free only then)" % b.where(bb, "term"))
             self.havoc_int(st, dl)
             k = self.name(dl)
             st.d.add(k, "N", -1)
@@ -1091,6 +1135,9 @@ class BulkProof:
             if rng is None or not isinstance(rng[0], str):
                 raise Fail("slice_axis_mut with an unmodelled range")
             adt, fs = rng
+            if fs and all(f is not None for f in fs):
+                self.need(st, "slice", all(st.le(f, ("N", 0)) for f in fs) and (len(fs) < 2 or st.le(fs[0], fs[1])),
+                          "slice_axis_mut at %s needs its bounds ≤ len" % b.where(bb, "term"))
             if adt == "std::ops::RangeTo" and fs and fs[0] is not None:
                 st.d.add(fs[0][0], "N", -fs[0][1])
                 st.subview[dl] = (Z0, fs[0])
@@ -1117,6 +1164,7 @@ class BulkProof:
             else:
                 self.havoc_int(st, dl)
                 st.d.add(self.name(dl), hi[0], hi[1])
+                st.lenof[dl] = (lo, hi)
             return
         if nm == "is_empty" and sl0 is not None and dl is not None:
             st.bools[dl] = ("Eq", sl0[2], sl0[1])
@@ -1142,6 +1190,7 @@ class BulkProof:
                 raise Fail("split point not modelled")
             base, lo, hi = sl0
             m = self.plus(st, lo, mid)
+            self.need(st, "split", st.le(m, hi), "split_at_mut at %s needs mid ≤ len (%s ≤ %s)" % (b.where(bb, "term"), m, hi))
             st.d.add(m[0], hi[0], hi[1] - m[1])                   # panics unless mid ≤ len
             st.tup[(dl, 0)] = ("slice", base, lo, m)
             st.tup[(dl, 1)] = ("slice", base, m, hi)
@@ -1154,6 +1203,7 @@ class BulkProof:
             it = self.term(t["args"][1])
             if it is not None:
                 pos = self.plus(st, sl0[1], it)
+                self.need(st, "slice-index", st.lt(pos, sl0[2]), "slice element %s at %s needs to lie below %s" % (pos, b.where(bb, "term"), sl0[2]))
                 st.d.add(pos[0], sl0[2][0], sl0[2][1] - pos[1] - 1)
                 st.selem[dl] = (sl0[0], pos)
                 return
@@ -1200,7 +1250,16 @@ class BulkProof:
         if int_dst:
             self.havoc_int(st, dl)
             if nm == "gen_range":
-                self.notes.append("pivot index is an unconstrained value (gen_range result havocked)")
+                self.notes.append("pivot index is any value of the requested range (gen_range contract: lo ≤ result < hi, panics on an empty range)")
+                rng = st.subview.get(als[1]) if len(als) > 1 else None
+                if rng and isinstance(rng[0], str) and rng[0] == "std::ops::Range" and all(f is not None for f in rng[1]):
+                    lo_, hi_ = rng[1]
+                    self.need(st, "pivot-range", st.lt(lo_, hi_), "gen_range at %s panics on an empty range: needs %s < %s" % (b.where(bb, "term"), lo_, hi_))
+                    x = self.name(dl)
+                    st.d.add(lo_[0], x, -lo_[1])
+                    st.d.add(x, hi_[0], hi_[1] - 1)
+                else:
+                    self.need(st, "pivot-range", False, "gen_range with an unmodelled range at %s" % b.where(bb, "term"))
             return
         # anything else that receives the array or a tracked slice mutably is not modelled
         for ty, a, al in zip(t["arg_tys"], args, als):
@@ -1309,17 +1368,52 @@ class BulkProof:
                 if pend:
                     op, a, c = pend
                     if a and c and op == "Sub":
+                        self.need(st, "overflow", st.le(c, a), "`%s − %s` must not wrap (%s)" % (a, c, b.where(bb, "term")))
                         st.d.add(c[0], a[0], a[1] - c[1])          # a − c ≥ 0
+                    elif a and c and op == "Add":
+                        tot = (a[0], a[1] + c[1]) if c[0] == "Z" else ((c[0], a[1] + c[1]) if a[0] == "Z" else None)
+                        self.need(st, "overflow", tot is not None and st.le(tot, ("Z", USIZE_MAX)), "`%s + %s` must not exceed usize::MAX (%s)" % (a, c, b.where(bb, "term")))
+                    else:
+                        self.need(st, "overflow", False, "unmodelled overflow check (%s)" % b.where(bb, "term"))
                 elif cl is not None and cl in st.bools:
                     op, a, c = st.bools[cl]
-                    refine_terms(st.d, op, a, c, bool(t.get("expected", True)))
+                    exp = bool(t.get("expected", True))
+                    self.need(st, "assert", refuted(st.d, op, a, c, not exp), "assert `%s %s %s` (%s)" % (a, op, c, b.where(bb, "term")))
+                    refine_terms(st.d, op, a, c, exp)
+                else:
+                    self.need(st, "assert", False, "unmodelled assert (%s)" % b.where(bb, "term"))
             elif t["k"] == "call":
                 self.call(st, bb, t)
             elif t["k"] == "switch" and nxt is not None:
+                self.diverging_edges(st, bb, t)
                 self.switch(st, t, nxt)
             if st.d.bottom:
                 return ("infeasible", st.case_used)
         return st
+
+    def diverging_edges(self, st, bb, t):
+        """every successor of this switch from which no return is reachable (a panic) must be excluded by the current state"""
+        b = self.b
+        dsc = t["discr"]
+        dl = dsc["pl"]["l"] if dsc["k"] in ("move", "copy") and not dsc["pl"]["p"] else None
+        info = st.bools.get(dl)
+        f = [tgt for v, tgt in t["arms"] if v == 0]
+        ftgt = f[0] if f else None
+        for s_ in b.succ(bb):
+            if b.term(s_)["k"] == "unreachable" or b.can_reach_return(s_):
+                continue
+            ok = False
+            if dl in st.bconst:
+                v = st.bconst[dl]
+                tgt = t["otherwise"]
+                for val, tg in t["arms"]:
+                    if val == v:
+                        tgt = tg
+                ok = tgt != s_
+            elif info is not None and t.get("discr_ty") == "bool":
+                truth = False if s_ == ftgt else True
+                ok = refuted(st.d, info[0], info[1], info[2], truth)
+            self.need(st, "diverging-branch", ok, "the branch at %s into a block that cannot return (an assertion failure) is not excluded when the precondition holds" % b.where(bb, "term"))
 
     def prove(self):
         self.loops = self.find_map_loops()
